@@ -33,7 +33,7 @@ def signature(rec, clause):
     """Canonical class of a rejected record: a known finding only for exactly the inputs and clauses
     the finding is about, otherwise the clause of the contract."""
     if rec.get("ev") == "Q" and rec.get("step") == MONTH:
-        if rec.get("loc") == "America/Asuncion" and rec.get("gen") == "known-dstgap":
+        if rec.get("dstgap"):  # some month of the range begins inside a gap of the local clock (driver, time.Date)
             return "month-start-in-dst-gap"
         if (rec.get("maxoff") or rec.get("off")) and clause in ("View", "CoverStart", "CoverEnd"):
             return "monthly-step-with-offset"
